@@ -1,0 +1,160 @@
+// MIT License
+//
+// Copyright (c) 2022-2026 GoAkt Team
+//
+// Permission is hereby granted, free of charge, to any person obtaining a copy
+// of this software and associated documentation files (the "Software"), to deal
+// in the Software without restriction, including without limitation the rights
+// to use, copy, modify, merge, publish, distribute, sublicense, and/or sell
+// copies of the Software, and to permit persons to whom the Software is
+// furnished to do so, subject to the following conditions:
+//
+// The above copyright notice and this permission notice shall be included in all
+// copies or substantial portions of the Software.
+//
+// THE SOFTWARE IS PROVIDED "AS IS", WITHOUT WARRANTY OF ANY KIND, EXPRESS OR
+// IMPLIED, INCLUDING BUT NOT LIMITED TO THE WARRANTIES OF MERCHANTABILITY,
+// FITNESS FOR A PARTICULAR PURPOSE AND NONINFRINGEMENT. IN NO EVENT SHALL THE
+// AUTHORS OR COPYRIGHT HOLDERS BE LIABLE FOR ANY CLAIM, DAMAGES OR OTHER
+// LIABILITY, WHETHER IN AN ACTION OF CONTRACT, TORT OR OTHERWISE, ARISING FROM,
+// OUT OF OR IN CONNECTION WITH THE SOFTWARE OR THE USE OR OTHER DEALINGS IN THE
+// SOFTWARE.
+
+//go:build verif
+
+package stream
+
+import (
+	"github.com/tochemey/goakt/v4/actor"
+)
+
+// This file is only compiled with the `verif` build tag. It exposes, for the
+// model-based verification harness, (a) a way to set the demand window of a
+// flow / sink (so that backpressure states are reached with tiny inputs) and
+// (b) a read-only projection of the stage actor state and of the unexported
+// stream protocol messages at the verifhook "stream.recv" call sites.
+
+// VerifFlowDemand returns a copy of f whose stage uses the given demand window.
+func VerifFlowDemand[In, Out any](f Flow[In, Out], initial, refill int64) Flow[In, Out] {
+	newStage := *f.stage
+	newStage.config.InitialDemand = initial
+	newStage.config.RefillThreshold = refill
+	prevMake := f.stage.actorFn
+	newStage.actorFn = func(cfg StageConfig) actor.Actor {
+		cfg.InitialDemand = initial
+		cfg.RefillThreshold = refill
+		return prevMake(cfg)
+	}
+	return Flow[In, Out]{stage: &newStage}
+}
+
+// VerifSinkDemand returns a copy of s whose stage uses the given demand window.
+func VerifSinkDemand[T any](s Sink[T], initial, refill int64) Sink[T] {
+	newDesc := *s.desc
+	newDesc.config.InitialDemand = initial
+	newDesc.config.RefillThreshold = refill
+	prevMake := s.desc.actorFn
+	newDesc.actorFn = func(cfg StageConfig) actor.Actor {
+		cfg.InitialDemand = initial
+		cfg.RefillThreshold = refill
+		return prevMake(cfg)
+	}
+	return Sink[T]{desc: &newDesc}
+}
+
+// VerifEvent is the projection of one message receipt of a stage actor.
+type VerifEvent struct {
+	Stage      string // actor name ("stream-<id>-<index>" unless renamed)
+	Kind       string // source | flow | fused | batch | par | sink
+	Msg        string // wire | req | el | complete | error | cancel | flush | result | other
+	N          int64  // req: n; el: seqNo
+	Val        any    // el: value
+	Credit     int64  // outstanding upstream credit before the message is handled
+	Demand     int64  // outstanding downstream demand before the message is handled
+	Buf        int64  // buffered outputs (flow), window length (batch), in-flight (par)
+	Completing bool
+	Initial    int64 // configured InitialDemand
+	Refill     int64 // configured RefillThreshold
+}
+
+// VerifProbe describes the receipt that rctx represents. ok is false for
+// actors that are not stream stages known to the projection.
+func VerifProbe(rctx *actor.ReceiveContext) (ev VerifEvent, ok bool) {
+	self := rctx.Self()
+	if self == nil {
+		return ev, false
+	}
+	ev.Stage = self.Name()
+	a := self.Actor()
+	if w, isW := a.(*completionWrapper); isW {
+		a = w.inner
+	}
+	switch s := a.(type) {
+	case *pullSourceActor:
+		ev.Kind = "source"
+		ev.Initial, ev.Refill = s.config.InitialDemand, s.config.RefillThreshold
+	case *flowActor:
+		ev.Kind = "flow"
+		ev.Credit, ev.Demand, ev.Buf, ev.Completing = s.upstreamCredit, s.downstreamDemand, int64(s.outputBuf.len()), s.completing
+		ev.Initial, ev.Refill = s.config.InitialDemand, s.config.RefillThreshold
+	case *fusedFlowActor:
+		ev.Kind = "fused"
+		ev.Credit = s.credit
+		ev.Initial, ev.Refill = s.config.InitialDemand, s.config.RefillThreshold
+	case *sinkActor:
+		ev.Kind = "sink"
+		ev.Credit = s.credit
+		ev.Initial, ev.Refill = s.config.InitialDemand, s.config.RefillThreshold
+	case verifBatchState:
+		ev.Kind = "batch"
+		ev.Credit, ev.Demand, ev.Buf, ev.Completing = s.verifBatchState()
+		ev.Initial, ev.Refill = s.verifBatchConfig()
+	case verifParState:
+		ev.Kind = "par"
+		ev.Buf, ev.Completing = s.verifParState()
+	default:
+		return ev, false
+	}
+	switch m := rctx.Message().(type) {
+	case *stageWire:
+		ev.Msg = "wire"
+	case *streamRequest:
+		ev.Msg, ev.N = "req", m.n
+	case *streamElement:
+		ev.Msg, ev.N, ev.Val = "el", int64(m.seqNo), m.value
+	case *streamComplete:
+		ev.Msg = "complete"
+	case *streamError:
+		ev.Msg = "error"
+	case *streamCancel:
+		ev.Msg = "cancel"
+	case *batchFlush:
+		ev.Msg = "flush"
+	case *parallelResult:
+		ev.Msg, ev.N, ev.Val = "result", int64(m.seqNo), m.value
+	default:
+		ev.Msg = "other"
+	}
+	return ev, true
+}
+
+type verifBatchState interface {
+	verifBatchState() (credit, demand, window int64, timerActive bool)
+	verifBatchConfig() (initial, refill int64)
+}
+
+func (a *batchFlowActor[T]) verifBatchState() (int64, int64, int64, bool) {
+	return a.upstreamCredit, a.downstreamDemand, int64(len(a.window)), a.timerActive
+}
+
+func (a *batchFlowActor[T]) verifBatchConfig() (int64, int64) {
+	return a.config.InitialDemand, a.config.RefillThreshold
+}
+
+type verifParState interface {
+	verifParState() (inFlight int64, upstreamDone bool)
+}
+
+func (a *parallelMapActor[In, Out]) verifParState() (int64, bool) {
+	return a.inFlight, a.upstreamDone
+}
